@@ -1,6 +1,7 @@
 import Fips204.Props.C05b
 import Fips204.Props.C02d
 import Fips204.Props.C09
+import Fips204.Props.C08c
 /-!
 # C05 (continued) — binding, stated on FIPS 204 Algorithms 3 and 5 **as the standard writes them**
 
@@ -77,5 +78,76 @@ theorem changed_public_key_needs_collision_as_written (O : Oracles) (hO : Oracle
   exact changed_public_key_needs_collision .release O hO hW p hp pkb pkb' hpb hpl hpb' hpl' hne pk pk' hpk hpk' sig hb hlen i hci
     (spec_accepts_gives_model_accepts O hO hW p hp pkb sig i hpb hpl hb hlen pk hpk hv)
     (spec_accepts_gives_model_accepts O hO hW p hp pkb' sig i hpb' hpl' hb hlen pk' hpk' hv')
+
+end Fips204.Props.C05
+
+namespace Fips204.Props.C05
+open Fips204 Fips204.Gen Fips204.Impl
+
+theorem take_drop_of_take_eq (s s' : List Nat) (n a b : Nat) (h : s.take n = s'.take n) (hab : a + b ≤ n) :
+    (s.drop a).take b = (s'.drop a).take b := by
+  have e1 : (s.drop a).take b = ((s.take n).drop a).take b := by
+    rw [List.drop_take, List.take_take, Nat.min_eq_left (by omega)]
+  have e2 : (s'.drop a).take b = ((s'.take n).drop a).take b := by
+    rw [List.drop_take, List.take_take, Nat.min_eq_left (by omega)]
+  rw [e1, e2, h]
+
+/-- **a change confined to the hint section needs a collision, on Algorithm 8 as written**: two different signature strings that agree on the
+    `c~` and `z` sections and are both accepted by `Spec.verifyInternal` under the same key and formatted message exhibit two different inputs on
+    which SHAKE256 agrees -/
+theorem hint_section_change_needs_collision_as_written (O : Oracles) (hO : OracleOk O) (p : ParamSet)
+    (hp : p ∈ [ml_dsa_44, ml_dsa_65, ml_dsa_87]) (blz : Nat) (cfg : SigCfg p blz)
+    (pkb Mp sig sig' : List Nat) (hpb : ∀ x ∈ pkb, x < 256) (hpl : pkb.length = p.pkLen)
+    (hb : ∀ x ∈ sig, x < 256) (hlen : sig.length = p.sigLen) (hb' : ∀ x ∈ sig', x < 256) (hlen' : sig'.length = p.sigLen) (hne : sig ≠ sig')
+    (hpre : sig.take (p.lambdaDiv4 + p.l * (32 * blz)) = sig'.take (p.lambdaDiv4 + p.l * (32 * blz)))
+    (hv : Spec.verifyInternal (specParams p) O.h O.g (1680 * O.fuelScale) (8 + 1360 * O.fuelScale) pkb Mp sig = some true)
+    (hv' : Spec.verifyInternal (specParams p) O.h O.g (1680 * O.fuelScale) (8 + 1360 * O.fuelScale) pkb Mp sig' = some true) :
+    HCollision O := by
+  have hblz : 1 + Spec.bitlen (p.gamma1 - 1) = blz := by
+    rcases cfg.g1 with ⟨h, hb⟩ | ⟨h, hb⟩ <;> rw [h, hb] <;> decide
+  obtain ⟨pk, hpk, ha⟩ := C02.verification_is_fips_204_algorithm_8_as_written .release O hO p hp pkb Mp sig [] [] [] true hpb hpl hb hlen
+  obtain ⟨pk', hpk', ha'⟩ := C02.verification_is_fips_204_algorithm_8_as_written .release O hO p hp pkb Mp sig' [] [] [] true hpb hpl hb' hlen'
+  rw [hpk] at hpk'
+  have := ok_inj hpk'
+  simp only [Option.some.injEq] at this
+  subst this
+  have hf : Spec.formatted true Mp [] [] [] = Mp := rfl
+  rw [hf, hv] at ha
+  rw [hf, hv'] at ha'
+  -- both strings decode (a rejected hint section makes Algorithm 8 return false)
+  have hdec : ∀ s, Spec.verifyInternal (specParams p) O.h O.g (1680 * O.fuelScale) (8 + 1360 * O.fuelScale) pkb Mp s = some true →
+      ∃ h, (Spec.sigDecode p.lambdaDiv4 p.l p.k p.omega.toNat blz p.gamma1 s).2.2 = some h := by
+    intro s hs
+    unfold Spec.verifyInternal at hs
+    simp only [specParams, hblz] at hs
+    have e4 : p.lambda / 4 = p.lambdaDiv4 := by
+      simp only [List.mem_cons, List.mem_nil_iff, or_false] at hp
+      rcases hp with rfl | rfl | rfl <;> rfl
+    rw [e4] at hs
+    cases hh : (Spec.sigDecode p.lambdaDiv4 p.l p.k p.omega.toNat blz p.gamma1 s).2.2 with
+    | none => simp only [hh] at hs; cases hs
+    | some h => exact ⟨h, rfl⟩
+  obtain ⟨h, hh⟩ := hdec sig hv
+  obtain ⟨h', hh'⟩ := hdec sig' hv'
+  have h27 := C08.sig_decode_is_algorithm_27 .release p blz cfg sig hb hlen
+  have h27' := C08.sig_decode_is_algorithm_27 .release p blz cfg sig' hb' hlen'
+  simp only [] at h27 h27'
+  rw [hh] at h27
+  rw [hh'] at h27'
+  -- the c~ and z components agree
+  have ec : (Spec.sigDecode p.lambdaDiv4 p.l p.k p.omega.toNat blz p.gamma1 sig).1 = (Spec.sigDecode p.lambdaDiv4 p.l p.k p.omega.toNat blz p.gamma1 sig').1 := by
+    have := take_drop_of_take_eq sig sig' _ 0 p.lambdaDiv4 hpre (by omega)
+    simpa [Spec.sigDecode] using this
+  have ez : (Spec.sigDecode p.lambdaDiv4 p.l p.k p.omega.toNat blz p.gamma1 sig).2.1 = (Spec.sigDecode p.lambdaDiv4 p.l p.k p.omega.toNat blz p.gamma1 sig').2.1 := by
+    simp only [Spec.sigDecode]
+    apply List.map_congr_left
+    intro i hi
+    have hi' : i < p.l := List.mem_range.mp hi
+    rw [take_drop_of_take_eq sig sig' _ (p.lambdaDiv4 + i * (32 * blz)) (32 * blz) hpre (by
+      have : (i + 1) * (32 * blz) ≤ p.l * (32 * blz) := Nat.mul_le_mul_right _ (by omega)
+      rw [Nat.add_mul, Nat.one_mul] at this
+      omega)]
+  rw [ec, ez] at h27
+  exact hint_section_change_needs_collision .release O hO p hp pkb hpb hpl pk hpk Mp sig sig' [] [] [] true hb hlen hb' hlen' hne _ _ h h' h27 h27' ha ha'
 
 end Fips204.Props.C05
